@@ -333,7 +333,12 @@ class Disconnector(Component, Switch):
         None
 
         """
-        self.not_fail()
+        if self.line.is_backup:
+            # Disconnectors of backup lines are normally open
+            self.failed = False
+            self.open()
+        else:
+            self.not_fail()
         if save_flag:
             self.initialize_history()
 
